@@ -55,7 +55,10 @@ _add("ones_like zeros_like empty_like full_like", "like", ew=True)
 _add("rand_like randn_like", "like", ew=True, rng=True)
 # stochastic unless told otherwise: F.dropout(x, p, training=True) draws a fresh mask per call
 _add("dropout dropout1d dropout2d dropout3d alpha_dropout feature_alpha_dropout rrelu", "fresh", ew=True, rng="mode")
-_add("bernoulli poisson normal", "fresh", ew=True, rng=True)
+# torch.normal(mean, std) is not the reparameterised  mean + std * randn: its output has no derivative with
+# respect to the parameter tensors, the gradient is severed there (discrete draws have none to lose)
+_add("bernoulli poisson binomial", "fresh", ew=True, rng=True)
+_add("normal", "fresh", ew=True, rng=True, cut=True)
 _add("new_zeros new_ones new_empty new_full new_tensor", "like")
 # structural, allocating
 _add("softmax log_softmax cumsum glu", "fresh", red=False, axis=True)
